@@ -8,7 +8,7 @@ func init() {
 			"(d) KVToBytes/KVFromBytes/CompareKV agree on (LittleEndian, 16 bit, [0:2], key = [2:2+klen], value = [2+klen:]). NOT decided: keys longer than 65535 bytes (silently truncated length), items >= 4 GiB, bufio.",
 		Assumptions: []string{"encoding/binary and hash/crc32 behave as documented"},
 		Run: func(c *Ctx) {
-			c.Do("C19.a", "L9 frame grammar agreement", 12, func() { clFrameGrammar(c); clReaderVersionAndSingleStream(c) })
+			c.Do("C19.a", "L9 frame grammar agreement", 12, func() { clFrameGrammar(c); clReaderVersionAndSingleStream(c); clStreamPrivateState(c) })
 			c.Do("C19.b", "L9 checksum operand agreement", 8, func() { clChecksumOperands(c) })
 			c.Do("C19.c", "L1+L2 terminator symmetry", 5, func() { clChecksumSampledBeforeClose(c); clDecodeItemDiscipline(c); clTerminatorAlways(c) })
 			c.Do("C19.d", "L9 KV helpers agree", 5, func() { clKVHelpers(c) })
